@@ -21,11 +21,15 @@ def plan(tier):
     if tier == "quick":
         specs = [(3, [("dense", 1, 3)], CONF_Q), (4, [("dense", 1, 2)], CONF_Q[:5:2] + CONF_Q[5:]),
                  (3, [("near", 2, 2)], CONF_Q),
-                 (5, [("bounded", 1, 1, 2)], CONF_Q[::2])]
+                 (5, [("bounded", 1, 1, 2)], CONF_Q[::2]),
+                 # many trains with at most one spike each: 15 and 21 pairs in the accumulation
+                 (6, [("bounded", 1, 1, 1)], CONF_Q[:5:2]), (7, [("bounded", 1, 1, 1)], CONF_Q[:5:4])]
     else:
         specs = [(3, [("dense", 1, 4), ("bounded", 2, 5, 5)], CONF_T), (4, [("dense", 1, 3)], CONF_Q),
                  (3, [("near", 2, 2)], CONF_Q), (4, [("near", 2, 2)], CONF_Q[::2]),
-                 (5, [("dense", 1, 1), ("bounded", 1, 2, 3)], CONF_Q)]
+                 (5, [("dense", 1, 1), ("bounded", 1, 2, 3)], CONF_Q),
+                 (6, [("bounded", 1, 1, 3)], CONF_Q[:5:2]), (7, [("bounded", 1, 1, 2)], CONF_Q[:5:2]),
+                 (8, [("bounded", 1, 1, 1)], CONF_Q[:5:2])]
     tasks, descs = [], []
     for N, regimes, conf in specs:
         tasks += pairs.regime_tasks(N, regimes, ["py", "pyx"], extra={"conf": conf}, nshards=48)
